@@ -215,6 +215,10 @@ def _on_firing(interp, fn, cls, args, result):
     if not isinstance(result, Funsor):
         counters["undecidable:non-funsor-result"] = counters.get("undecidable:non-funsor-result", 0) + 1
         return
+    if st.get("taint"):
+        counters["undecidable:encloses-outside-carrier-rewrite"] = counters.get("undecidable:encloses-outside-carrier-rewrite", 0) + 1
+        _SEEN.pop(keyid, None)
+        return
     if _is_reflected(cls, args, result):
         counters["trivial:" + interp + ":" + rid] = counters.get("trivial:" + interp + ":" + rid, 0) + 1
         return
@@ -229,6 +233,21 @@ def _on_firing(interp, fn, cls, args, result):
                 st["viol"] = (interp, rid, cls, args, result, "input-domain", "input %s: %s vs %s" % (n, d, in_lhs[n]))
                 return
         pts = _points(in_lhs, st["seed"])
+        # carrier clause of the statement: (max|min, mul) rules are only claimed on non-negative data
+        if term._name(cls) == "Contraction":
+            r_op, b_op, r_vars, c_terms = term._contraction_parts(args)
+            if getattr(r_op, "__name__", "") in ("max", "min") and getattr(b_op, "__name__", "") == "mul":
+                for t_ in c_terms:
+                    t_in = {n: d for n, d in t_.inputs.items()}
+                    for rho in _points(t_in, st["seed"]):
+                        try:
+                            if np.any(np.asarray(term.tden(t_, rho)) < 0):
+                                counters["outside-carrier:negative-factor-under-(max|min,mul)"] = counters.get("outside-carrier:negative-factor-under-(max|min,mul)", 0) + 1
+                                # enclosing firings embed this (unclaimed) rewrite in their results: not decidable either
+                                st["taint"] = True
+                                return
+                        except term.UndefinedPoint:
+                            continue
         ncmp = 0
         for rho in pts:
             try:
@@ -350,6 +369,7 @@ def check(case, seed):
     st = _STATE
     st.update(viol=None, counters={}, n=0, seed=seed, program=e)
     for name, fn in routes or _routes(e, seed):
+        st["taint"] = False
         try:
             with _MON:
                 fn()
